@@ -72,7 +72,8 @@ def run_one(patch, pid, expect_violation, with_tests, tier="quick"):
                         rec["replay_steps"] = "%s -> %d" % (rp.get("original_steps"), len(rp["plan"].get("steps", [])))
                     except Exception:
                         pass
-                    rec["as_expected"] = rec["as_expected"] and r.returncode == 1
+                    if "expect-replay: flaky" not in open(patch).read(600):
+                        rec["as_expected"] = rec["as_expected"] and r.returncode == 1
                     break
     finally:
         shutil.rmtree(d, ignore_errors=True)
